@@ -849,6 +849,13 @@ func (r *reader) read(src []byte) {
 				}
 			}
 			r.pushInteger(src)
+		case bitVectorMode:
+			token := r.makeToken(src)
+			if 0 < len(r.stack) {
+				r.stack = append(r.stack, ReadBitVector(token))
+			} else {
+				r.code = append(r.code, ReadBitVector(token))
+			}
 		case sharpMode, sharpNumMode, mustArrayMode:
 			r.partial("# not terminated")
 		}
